@@ -321,11 +321,11 @@ func (w *Workload) NumOps() int {
 
 // Env is the shared object under test for one run.
 type Env struct {
-	codec  *codec.Codec
-	refl   *j5reflect.Reflector
-	refl2  *j5reflect.Reflector // second reflector over the same cache (shared_cache)
-	cache  *j5schema.SchemaCache
-	plain  *codec.Codec // private reference codec used only to prepare inputs
+	codec *codec.Codec
+	refl  *j5reflect.Reflector
+	refl2 *j5reflect.Reflector // second reflector over the same cache (shared_cache)
+	cache *j5schema.SchemaCache
+	plain *codec.Codec // private reference codec used only to prepare inputs
 }
 
 func newEnv(kind string) *Env {
@@ -399,7 +399,6 @@ type Prepared struct {
 	Query url.Values
 	Any   *any_j5t.Any
 }
-
 
 func prepare(spec OpSpec) *Prepared {
 	ti := catByName[spec.Type]
